@@ -202,6 +202,9 @@ pub fn dash_path(path: &Path, dash_array: &[f32], mut dash_offset: f32) -> Path 
                     }
                     initial_segment = Vec::new();
                     cur_pt = Some(start_point);
+                    // a LineTo that follows without a MoveTo begins a new subpath at the start point
+                    is_first_segment = true;
+                    first_dash = true;
 
                     // reset the dash state
                     state = initial;
